@@ -522,7 +522,15 @@ fn collect_item(db: &mut Db, item: &syn::Item, file: &str) {
                 float,
             });
         }
-        syn::Item::Const(_) | syn::Item::Static(_) | syn::Item::Type(_) => unsupported(file, line_of(item), "top-level const/static/type"),
+        syn::Item::Const(c) => {
+            // a named integer constant: emitted as a definition K_NAME, referenced by its bare name
+            let t = conv_type(&c.ty, &[], file);
+            if !(t.is_unsigned() || matches!(t, Ty::I8 | Ty::I16 | Ty::I32)) {
+                unsupported(file, line_of(item), "top-level const of a non-integer type");
+            }
+            db.consts.insert(format!("K_{}", c.ident), (t, (*c.expr).clone(), file.into()));
+        }
+        syn::Item::Static(_) | syn::Item::Type(_) => unsupported(file, line_of(item), "top-level static/type"),
         _ => unsupported(file, line_of(item), "item kind"),
     }
 }
